@@ -290,3 +290,60 @@ func scenarioLoneLaggard() []caseOut {
 	}
 	return a.outs(tags)
 }
+
+// scenarioCrossRole (defect repaired by /repo e1612ceed; regression): n=4, first height (leaders: round 1 → 1, round 2 → 2,
+// round 3 → 3), operator 3 Byzantine. The round-1 proposal is delayed, the correct operators 1,2,4 time out; operator 2
+// (leader of round 2) proposes A on their round-changes; all prepare and commit A, the commits reach operator 1 only, which
+// decides A; 2 and 4 time out to round 3. In a second duty role (other identifier, same height) the same operators timed out
+// twice without traffic: genuine unprepared round-changes for round 3 carrying the OTHER identifier. The Byzantine leader of
+// round 3 proposes B for the role under test, "justified" by those; with its own prepare and commit, 2 and 4 would decide B.
+// On the repaired tree the proposal is refused (…/rcNotValid/wrongMsgIdentifier) and nobody reports B.
+func scenarioCrossRole() []caseOut {
+	env := getEnv(4)
+	h := specqbft.Height(0)
+	a := newDirected(env, h, []spectypes.OperatorID{3}, false)
+	A, B := valueBytes(1), valueBytes(2)
+	rB := sha256.Sum256(B)
+	a.startAll([][]byte{A, A, A, A})
+	a.altValues = [][]byte{A, A, A, A}
+	a.altInit(a.altValues)
+	n1, n2, n4 := a.node(1), a.node(2), a.node(4)
+	correct := []*SimNode{n1, n2, n4}
+	for _, nd := range correct {
+		a.timeoutOn(nd)
+	}
+	a.deliverWhere(n2, isT(specqbft.RoundChangeMsgType, 2))
+	for _, nd := range correct {
+		a.deliverWhere(nd, isT(specqbft.ProposalMsgType, 2))
+	}
+	for _, nd := range correct {
+		a.deliverWhere(nd, isT(specqbft.PrepareMsgType, 2))
+	}
+	a.deliverWhere(n1, isT(specqbft.CommitMsgType, 2)) // operator 1 decides A
+	a.timeoutOn(n2)
+	a.timeoutOn(n4)
+	// the second duty role: two timeouts without traffic
+	for _, nd := range correct {
+		a.altTimeout(nd.id)
+		a.altTimeout(nd.id)
+	}
+	var otherRC []*specqbft.SignedMessage
+	for _, m := range a.altMaterial() {
+		if isT(specqbft.RoundChangeMsgType, 3)(m) && m.Message.DataRound == 0 {
+			otherRC = append(otherRC, m)
+		}
+	}
+	victims := []*SimNode{n2, n4}
+	a.sendDirect(enc(a.f.proposal(3, 3, B, otherRC, nil)), victims)
+	a.sendDirect(enc(a.f.prepare(3, 3, rB)), victims)
+	for _, nd := range victims {
+		a.deliverWhere(nd, func(m *specqbft.SignedMessage) bool {
+			return isT(specqbft.PrepareMsgType, 3)(m) && m.Message.Root == rB
+		})
+	}
+	a.sendDirect(enc(a.f.commit(3, 3, rB)), victims)
+	for _, nd := range victims {
+		a.deliverWhere(nd, func(m *specqbft.SignedMessage) bool { return isT(specqbft.CommitMsgType, 3)(m) && m.Message.Root == rB })
+	}
+	return a.outs([]string{"case/directed", "directed/cross-role-justification-replay"})
+}
